@@ -1,4 +1,4 @@
-\* C04 (thorough tier): every call history of depth 4 over the reduced menu (15 operations); properties checked at every reachable state
+\* C04 (thorough tier): every call history of depth 4 over the reduced menu (16 operations); properties checked at every reachable state
 CONSTANTS
     Depth = 4
     EmitOn = TRUE
